@@ -14,6 +14,7 @@ import (
 	"math/rand"
 	"os"
 	"path/filepath"
+	"runtime"
 	"strconv"
 	"strings"
 	"sync"
@@ -179,3 +180,14 @@ func vReadLines(t testing.TB, envName string) []string {
 }
 
 func vSprintf(format string, a ...interface{}) string { return fmt.Sprintf(format, a...) }
+
+// vInstallPanicHandler records panics that sarama's withRecover catches as events (clause
+// no_panic) instead of letting them kill the process; goroutines sarama starts without
+// withRecover still crash the process, which the runner maps to the same clause.
+func vInstallPanicHandler(rec *vRec) {
+	PanicHandler = func(v interface{}) {
+		buf := make([]byte, 4096)
+		buf = buf[:runtime.Stack(buf, false)]
+		rec.Ev("panic", kv{"msg": fmt.Sprintf("%v", v), "stack": string(buf)})
+	}
+}
